@@ -16,6 +16,13 @@ TRUSTED = [
     "exact-arithmetic theorems (ordered field K); IEEE rounding only through the bit-exact tie",
     "pin names are ASCII (Python str.isdigit on non-ASCII digits is not modelled)",
     "str(value) is a parameter of the SerialMonitor.write model",
+    "harness/pytolean.py (shape \"num\"), the translator of `Utils.map` / `Utils.sleep` to Lean (joins the trusted base: its reading of the Python subset — number "
+    "parameters and single-assignment locals = the model's `Val α`; `+ - * /` = `Val.add/sub/mul/div`, `float(e)` = `Val.toFloat`, an int literal = `Val.int`, a float "
+    "literal with an integral value = `Val.flt (Num.ofInt n)`; `a == b` = `Host.Utils.veq` (no NaN), `<`/`<=` = `Val.lt`/`Val.le`; `if c: raise ValueError(...)` = "
+    "`.error .valueError`, `return e` = `.ok e`; `h = <keyword-only hook> or <callable>; h(e)` as the last statement = `.ok e`, the value handed to the effect; `/` is "
+    "accepted only where the divisor is a non-zero literal or `x - y` after a guard `if x == y: raise` — that `x != y` gives `x - y != 0` holds in an ordered field and in "
+    "IEEE doubles with gradual underflow and is not proved here; a source outside the subset is reported as a broken obligation); the bit-exact differential tie of "
+    "`Host.Utils.map/sleep` against CPython exercises the same two functions independently of the translator",
 ]
 
 PINS = [("n", 0), ("n", 7), ("n", 13), ("s", "7"), ("s", "13"), ("s", "007"), ("s", "A0"), ("s", "A1"), ("s", " 7"), ("s", "-7"), ("s", ""), ("n", -7), ("s", "0")]
@@ -128,7 +135,7 @@ NUMS = [0, 1, -1, 5, 10, 100, 1023, 255, 0.0, 0.5, -2.5, 3.25, 1e3, 180, True]
 
 
 def run(ctx: Ctx) -> int:
-    ctx.prove(["Reduino.Props.C20"])
+    ctx.prove(["Reduino.Props.C20", "Reduino.GenOb.Utils"])
     common.fresh_import()
     core = importlib.import_module("Reduino.Core")
     utils = importlib.import_module("Reduino.Utils")
